@@ -20,7 +20,7 @@ import (
 
 // watermarkRound drives one y.WaterMark under badger's usage contract (Begin calls are serialised
 // in non-decreasing index order; Done in any order) with shadow counters and an observer.
-func watermarkRound(c *core.Ctx, round int, nWorkers, nIdx int, dup, sparse bool) {
+func watermarkRound(c *core.Ctx, round int, nWorkers, nIdx int, dup, sparse, reuse bool) {
 	r := c.Rand(fmt.Sprintf("c34-wm-%d", round))
 	closer := z.NewCloser(1)
 	w := &y.WaterMark{Name: "verif"}
@@ -31,6 +31,9 @@ func watermarkRound(c *core.Ctx, round int, nWorkers, nIdx int, dup, sparse bool
 	doneCalled := make([]atomic.Int32, maxIdx)
 	var next, lastBegun atomic.Uint64
 	next.Store(1)
+	var anchorHeld bool // guarded by mu
+	var anchorIdx uint64
+	var reBegins atomic.Int64
 	var mu sync.Mutex
 	var wg sync.WaitGroup
 	stopObs := make(chan struct{})
@@ -98,6 +101,22 @@ func watermarkRound(c *core.Ctx, round int, nWorkers, nIdx int, dup, sparse bool
 			rr := c.Rand(fmt.Sprintf("c34-wm-%d-%d-%d", round, g, seeds[g]))
 			for n := 0; n < nIdx; n++ {
 				mu.Lock()
+				// re-use (badger's readMark: readers at the same read timestamp come and go): an index
+				// whose holders are all done may be begun again - here only while a smaller index is
+				// certainly still held (the anchor), so the mark cannot have reached it yet
+				if reuse && g != 0 && anchorHeld && lastBegun.Load() > anchorIdx && rr.Intn(2) == 0 {
+					idx := lastBegun.Load()
+					w.Begin(idx)
+					begun[idx].Add(1)
+					reBegins.Add(1)
+					mu.Unlock()
+					if rr.Intn(3) == 0 {
+						time.Sleep(time.Duration(rr.Intn(200)) * time.Microsecond)
+					}
+					doneCalled[idx].Add(1)
+					w.Done(idx)
+					continue
+				}
 				prev := next.Load() - 1
 				step := uint64(1)
 				if sparse {
@@ -112,6 +131,18 @@ func watermarkRound(c *core.Ctx, round int, nWorkers, nIdx int, dup, sparse bool
 				lastBegun.Store(idx)
 				w.Begin(idx)
 				begun[idx].Add(1)
+				isAnchor := reuse && g == 0 && !anchorHeld && rr.Intn(3) == 0
+				if isAnchor {
+					anchorHeld, anchorIdx = true, idx
+					mu.Unlock()
+					time.Sleep(time.Duration(1+rr.Intn(4)) * time.Millisecond)
+					mu.Lock()
+					anchorHeld = false
+					mu.Unlock()
+					doneCalled[idx].Add(1)
+					w.Done(idx)
+					continue
+				}
 				twice := dup && rr.Intn(3) == 0
 				if twice {
 					// two overlapping holders of the same index (transactions with equal read
@@ -166,11 +197,12 @@ func watermarkRound(c *core.Ctx, round int, nWorkers, nIdx int, dup, sparse bool
 	c.Count("wm.observations", observations.Load())
 	c.Count("wm.observations_with_pending_indices", pendingSeen.Load())
 	c.Count("wm.indices", int64(final))
+	c.Count("wm.rebegins_of_finished_indices", reBegins.Load())
 	if b := bad.Load(); b != nil {
-		c.Violation("C34|watermark|"+firstWords(b.(string)), b.(string), map[string]any{"workers": nWorkers, "indices": final, "duplicates": dup, "sparse": sparse})
+		c.Violation("C34|watermark|"+firstWords(b.(string)), b.(string), map[string]any{"workers": nWorkers, "indices": final, "duplicates": dup, "sparse": sparse, "reuse": reuse})
 	}
 	if pendingSeen.Load() > 0 {
-		c.Distinct(fmt.Sprintf("watermark|workers=%d|dup=%v|sparse=%v", nWorkers, dup, sparse))
+		c.Distinct(fmt.Sprintf("watermark|workers=%d|dup=%v|sparse=%v|reuse=%v", nWorkers, dup, sparse, reuse))
 	}
 }
 
@@ -314,7 +346,7 @@ func firstWords(s string) string {
 
 // C34 the oracle and watermarks never expose unfinished commits or strand readers.
 func C34(c *core.Ctx) {
-	c.Rule("(i) y.WaterMark under badger's usage contract (Begin serialised in increasing order - contiguous or, in half of the rounds, sparse with readers waiting on never-begun timestamps inside the gaps -, an index may be held twice at once, Done in any order) with 4-16 goroutines, shadow counters " +
+	c.Rule("(i) y.WaterMark under badger's usage contract (Begin serialised in increasing order - contiguous or, in half of the rounds, sparse with readers waiting on never-begun timestamps inside the gaps -, an index may be held twice at once and, in a third of the rounds, be begun again after all its holders finished while a smaller index is still held, Done in any order) with 4-16 goroutines, shadow counters " +
 		"updated after Begin returns / before Done is called, and an observer that snapshots them around DoneUntil(): an index <= DoneUntil with more returned Begins than started " +
 		"Dones is a violation; waiters must return (and only once DoneUntil >= index), a waiter still blocked 20 s after everything was done is a lost wake-up; (ii) recorded " +
 		"histories of many small commits and transaction starts with delays at commit.afterTs / write.afterVlog / commit.beforeDone / readts.beforeWait, monitored through hooks: " +
@@ -323,7 +355,7 @@ func C34(c *core.Ctx) {
 		"must not block (more marks than the channel holds are sent), and transactions started by 8 goroutines while Close completes must all return; (iii) race-detector reports in y/watermark.go or the oracle are violations; distinct = configurations in which the " +
 		"monitored window was actually observed open")
 	for i, v0 := 0, c.Violations(); i < c.Pick(40, 400) && c.Violations() == v0; i++ { // a stuck waiter costs 20 s: stop at the first
-		watermarkRound(c, i, 4+i%13, c.Pick(150, 400), i%2 == 1, i%4 >= 2)
+		watermarkRound(c, i, 4+i%13, c.Pick(150, 400), i%2 == 1, i%4 >= 2, i%3 == 2)
 	}
 	// (ii)
 	work := c.WorkDir()
